@@ -1,4 +1,132 @@
+import AffVerif.Props.C14
 import AffVerif.Model.LP
-/-! # C15 (theorems added below as they are proved) -/
+/-!
+# C15 — constraint clean-up keeps exactly the same point set
+
+Proved: `remove_rows` / `remove_zero_rows` / `remove_tautologies` return a sub-sequence of the original rows (or the
+canonical empty / whole-space polytope) and `remove_zero_rows`, `remove_tautologies` keep the point set.
+Open: `normalize`, `remove_duplicate_rows`, `remove_redundant_row_constraints` (square roots, `relative_eq` and the
+LP oracle enter; covered by exact set-equality decisions on every generated system).
+-/
+set_option linter.unusedSectionVars false
+set_option linter.unusedVariables false
 namespace AV
+variable {α : Type} [Field α] [LinearOrder α] [IsStrictOrderedRing α]
+
+theorem removeRowsAux_sublist (i : Nat) (idxs : List Nat) (rs : List (List α × α)) :
+    (Aff.removeRowsAux i idxs rs).Sublist rs := by
+  induction rs generalizing i with
+  | nil => simp [Aff.removeRowsAux]
+  | cons r rs ih =>
+    simp only [Aff.removeRowsAux]
+    split
+    · exact (ih (i+1)).cons r
+    · exact (ih (i+1)).cons₂ r
+
+/-- `remove_rows` only drops rows: the result is a sub-sequence of the original rows -/
+theorem C15_remove_rows_subseq (p : Aff α) (idxs : List Nat) : (p.removeRows idxs).rows.Sublist p.rows := by
+  unfold Aff.removeRows
+  rw [ofRows_rows]
+  exact removeRowsAux_sublist 0 idxs p.rows
+
+theorem C15_remove_zero_rows_subseq (p : Aff α) : p.removeZeroRows.rows.Sublist p.rows := by
+  unfold Aff.removeZeroRows
+  rw [ofRows_rows]
+  exact List.filter_sublist
+
+theorem dot_isZeroVec (a x : List α) (h : isZeroVec a = true) : dot a x = 0 := by
+  apply dot_all_zero'
+  intro e he
+  unfold isZeroVec at h
+  simp only [List.all_eq_true, beq_iff_eq] at h
+  exact h e he
+where
+  dot_all_zero' (v x : List α) (h : ∀ e ∈ v, e = 0) : dot v x = 0 := by
+    induction v generalizing x with
+    | nil => simp
+    | cons a as ih =>
+      cases x with
+      | nil => simp
+      | cons b bs =>
+        simp only [dot_cons]
+        rw [h a (List.mem_cons_self), ih bs (fun e he => h e (List.mem_cons_of_mem _ he))]
+        ring
+
+/-- `remove_zero_rows` keeps the point set (it drops only rows `0·x ≤ 0`) -/
+theorem C15_remove_zero_rows (p : Aff α) (x : List α) : Poly.Mem p.removeZeroRows x ↔ Poly.Mem p x := by
+  unfold Poly.Mem Aff.removeZeroRows
+  rw [ofRows_rows]
+  constructor
+  · intro h rb hrb
+    by_cases hz : (isZeroVec rb.1 && rb.2 == 0) = true
+    · simp only [Bool.and_eq_true, beq_iff_eq] at hz
+      rw [dot_isZeroVec rb.1 x hz.1, hz.2]
+    · refine h rb (List.mem_filter.mpr ⟨hrb, ?_⟩)
+      cases h1 : isZeroVec rb.1 <;> cases h2 : (rb.2 == 0) <;> simp_all
+  · intro h rb hrb
+    exact h rb (List.mem_filter.mp hrb).1
+
+/-- `remove_tautologies` keeps the point set; an infeasible zero row yields the canonical empty polytope, dropping
+    every row the canonical whole-space polytope -/
+theorem C15_remove_tautologies (p : Aff α) (x : List α) : Poly.Mem (Poly.removeTautologies p) x ↔ Poly.Mem p x := by
+  unfold Poly.removeTautologies
+  split
+  · rename_i hany
+    -- some row is `0·x ≤ b` with `b < 0`: nothing satisfies p
+    simp only [List.any_eq_true, Bool.and_eq_true, Bool.not_eq_true', decide_eq_false_iff_not] at hany
+    obtain ⟨rb, hrb, hz, hneg⟩ := hany
+    constructor
+    · intro h; exact absurd h (C14_unbounded_empty p.indim x).2
+    · intro h
+      have := h rb hrb
+      rw [dot_isZeroVec rb.1 x hz] at this
+      exact absurd this hneg
+  · rename_i hnone
+    have hpos : ∀ rb ∈ p.rows, isZeroVec rb.1 = true → 0 ≤ rb.2 := by
+      intro rb hrb hz
+      by_contra hn
+      apply hnone
+      simp only [List.any_eq_true, Bool.and_eq_true, Bool.not_eq_true', decide_eq_false_iff_not]
+      exact ⟨rb, hrb, hz, hn⟩
+    have hback : (∀ rb ∈ p.rows.filter (fun rb => !isZeroVec rb.1), dot rb.1 x ≤ rb.2) → Poly.Mem p x := by
+      intro h rb hrb
+      by_cases hz : isZeroVec rb.1 = true
+      · rw [dot_isZeroVec rb.1 x hz]; exact hpos rb hrb hz
+      · exact h rb (List.mem_filter.mpr ⟨hrb, by simpa using hz⟩)
+    show Poly.Mem (if (p.rows.filter (fun rb => !isZeroVec rb.1)).isEmpty = true then Poly.unbounded p.indim
+      else Aff.ofRows p.indim (p.rows.filter (fun rb => !isZeroVec rb.1))) x ↔ Poly.Mem p x
+    split
+    · rename_i hemp
+      constructor
+      · intro _
+        apply hback
+        intro rb hrb
+        have : p.rows.filter (fun rb => !isZeroVec rb.1) = [] := by simpa using hemp
+        rw [this] at hrb; simp at hrb
+      · intro _; exact (C14_unbounded_empty p.indim x).1
+    · unfold Poly.Mem
+      rw [ofRows_rows]
+      constructor
+      · exact hback
+      · intro h rb hrb; exact h rb (List.mem_filter.mp hrb).1
+
+/-- `remove_tautologies` only drops rows (when it does not return a canonical polytope) -/
+theorem C15_remove_tautologies_subseq (p : Aff α) :
+    Poly.removeTautologies p = Poly.empty p.indim ∨ Poly.removeTautologies p = Poly.unbounded p.indim ∨
+    (Poly.removeTautologies p).rows.Sublist p.rows := by
+  unfold Poly.removeTautologies
+  split
+  · exact Or.inl rfl
+  · show (if (p.rows.filter (fun rb => !isZeroVec rb.1)).isEmpty = true then Poly.unbounded p.indim
+      else Aff.ofRows p.indim (p.rows.filter (fun rb => !isZeroVec rb.1))) = Poly.empty p.indim ∨
+      (if (p.rows.filter (fun rb => !isZeroVec rb.1)).isEmpty = true then Poly.unbounded p.indim
+      else Aff.ofRows p.indim (p.rows.filter (fun rb => !isZeroVec rb.1))) = Poly.unbounded p.indim ∨
+      (if (p.rows.filter (fun rb => !isZeroVec rb.1)).isEmpty = true then Poly.unbounded p.indim
+      else Aff.ofRows p.indim (p.rows.filter (fun rb => !isZeroVec rb.1))).rows.Sublist p.rows
+    split
+    · exact Or.inr (Or.inl rfl)
+    · right; right
+      rw [ofRows_rows]
+      exact List.filter_sublist
+
 end AV
